@@ -305,6 +305,66 @@ def memoised_file_readers(run, rule, mi):
     return n
 
 
+def _mutable_default(d):
+    if isinstance(d, (ast.List, ast.Dict, ast.Set, ast.ListComp, ast.DictComp, ast.SetComp)):
+        return True
+    if isinstance(d, ast.Call):
+        f = (dotted(d.func) or '').split('.')
+        return f[-1] in ('list', 'dict', 'set', 'defaultdict', 'OrderedDict', 'bytearray', 'zeros', 'empty', 'ones', 'array') or f[0][:1].isupper() \
+            or (len(f) > 1 and f[-2][:1].isupper())
+    return False
+
+
+def shared_default_results(run, rule, mi):
+    """def f(..., default=Mutable()): ... return default -- the one default object, created when the function was defined, is handed to
+    every caller that omits the argument; a caller that fills what it got writes into the object the next caller receives."""
+    n = 0
+    fns = dict(dict.items(mi.functions))
+    for fname, f in fns.items():
+        a = f.args
+        pos = a.posonlyargs + a.args
+        defaults = dict(zip([x.arg for x in pos[len(pos) - len(a.defaults):]], a.defaults))
+        defaults.update({x.arg: d for x, d in zip(a.kwonlyargs, a.kw_defaults) if d is not None})
+        for p, d in defaults.items():
+            if not _mutable_default(d):
+                continue
+            if any(isinstance(t, ast.Name) and t.id == p and isinstance(t.ctx, ast.Store) for t in ast.walk(f)):
+                continue
+            if not any(isinstance(r, ast.Return) and isinstance(r.value, ast.Name) and r.value.id == p for r in ast.walk(f)):
+                continue
+            index = [x.arg for x in pos].index(p) if p in [x.arg for x in pos] else None
+            for gname, g in list(fns.items()) + [('%s.%s' % (cn, m.name), m) for cn, c in mi.classes.items() for m in c.body if isinstance(m, ast.FunctionDef)]:
+                for st in ast.walk(g):
+                    if not (isinstance(st, ast.Assign) and len(st.targets) == 1 and isinstance(st.targets[0], ast.Name)
+                            and isinstance(st.value, ast.Call) and dotted(st.value.func) == fname):
+                        continue
+                    c = st.value
+                    if any(k.arg == p for k in c.keywords) or (index is not None and len(c.args) > index) or any(isinstance(x, ast.Starred) for x in c.args):
+                        continue
+                    got = st.targets[0].id
+                    writes = [w for w in ast.walk(g) if
+                              (isinstance(w, (ast.Assign, ast.AugAssign)) and any(isinstance(t, ast.Subscript) and _root(t) == got
+                                                                                   for t in (w.targets if isinstance(w, ast.Assign) else [w.target])))
+                              or (isinstance(w, ast.Call) and isinstance(w.func, ast.Attribute) and _root(w.func.value) == got
+                                  and w.func.attr in ('update', 'append', 'extend', 'add', 'setdefault', 'pop', 'clear', 'insert', 'remove'))]
+                    n += 1
+                    run.subject(rule)
+                    if writes:
+                        run.fail(rule, '%s|%s|shared-default:%s' % (mi.name, fname, p), mi.relpath, st.lineno,
+                                 "%s fills the object it got from %s(...), which can be the default value of '%s' (%s): that one object was created "
+                                 "when the function was defined and is returned to every caller, so entries stored for one file or call appear in the next"
+                                 % (gname, fname, p, norm(d)[:40]))
+                    else:
+                        run.ok(rule, '%s reads the default of %s' % (gname, fname), 'result not written', sample=False)
+    return n
+
+
+def _root(t):
+    while isinstance(t, (ast.Subscript, ast.Attribute)):
+        t = t.value
+    return t.id if isinstance(t, ast.Name) else None
+
+
 def last_call_memos(run, rule, mi, name, fn):
     """'global _last, _value; if arg is not _last: _value = f(arg); _last = arg' -- a one-entry memo keyed by the *identity* of an array:
     the array can be edited in place between two calls, the identity stays, the memoised value is stale."""
@@ -351,6 +411,7 @@ def check_caches(run, modules, rule, functions=None, prog=None):
         fns = list((n, f, None) for n, f in mi.functions.items())
         if functions is None:
             nstores += memoised_file_readers(run, rule, mi)
+            nstores += shared_default_results(run, rule, mi)
         for cname, cnode in mi.classes.items():
             _class_level(run, rule, mi, cname, cnode)
             inst = set()
